@@ -385,7 +385,10 @@ func (s *ReqSpec) Build(ctx context.Context) (*http.Request, error) {
 	if req.Host == "" {
 		req.Host = "example.test"
 	}
-	if major == 2 {
+	if major == 3 {
+		// what an HTTP/3 front end (quic-go, Caddy) hands to a handler
+		req.Proto, req.ProtoMajor, req.ProtoMinor = "HTTP/3.0", 3, 0
+	} else if major == 2 {
 		req.Proto, req.ProtoMajor, req.ProtoMinor = "HTTP/2.0", 2, 0
 	} else {
 		req.Proto, req.ProtoMajor, req.ProtoMinor = "HTTP/1.1", 1, 1
